@@ -46,7 +46,8 @@ class Network:
         """phases = [(duration_s | "until:<STATE>", mode)]; a trigger phase lasts until `state_fn()` first returns <STATE>
         (state_fn is set by the harness, e.g. the manager's state name); afterwards the network is healthy for good.
         modes: healthy | blackout | rferr | rferr-nonping (RFERR to everything but pings) | lossy:<p> | noping (every APING datagram is lost, both ways) |
-               first:<n> (the first n transmissions of each request verb are lost) | combinations joined by '+'"""
+               first:<n> (the first n transmissions of each request verb are lost) |
+               seg:<k> / segonce:<k> (segment k of a status block answer is lost: always / the first time only) | combinations joined by '+'"""
         now = self.loop.time()
         if not hasattr(self, "_ends"):
             self._ends, self._cur = [], self.t0            # absolute end times of finished phases
@@ -88,6 +89,16 @@ class Network:
                 return True
             if m == "noping" and self._verb(data) == b"APING":
                 return True
+            if (m.startswith("seg:") or m.startswith("segonce:")) and not outbound and self._verb(data) == b"STATV":
+                # one segment of a status block answer is lost (seg:<k> every time while the mode lasts, segonce:<k> the first time only)
+                i = data.find(b"<DATAS>")
+                seq = data[i + 12] if i >= 0 and len(data) > i + 12 else None
+                if seq == int(m.split(":")[1]):
+                    if m.startswith("seg:"):
+                        return True
+                    if not getattr(self, "_segonce_done", False):
+                        self._segonce_done = True
+                        return True
             if m.startswith("first:") and outbound and self._verb(data) not in (b"APING", b"<HELL"):
                 if not hasattr(self, "_seen"):
                     self._seen = {}
